@@ -76,19 +76,22 @@ func Shrink(dec []int, test func([]int) bool, maxTests int, budget time.Duration
 			}
 		}
 		best = trim(best)
-		// 4. lower single values
+		// 4. lower single values: binary search for the smallest value that
+		// still fails (exact when failing is monotone in the value)
 		for i := range best {
-			for best[i] > 0 {
+			if best[i] == 0 {
+				continue
+			}
+			lo, hi := 0, best[i]
+			for lo < hi {
+				mid := (lo + hi) / 2
 				c := append([]int(nil), best...)
-				if c[i] > 1 {
-					c[i] = c[i] / 2
-				} else {
-					c[i] = 0
-				}
+				c[i] = mid
 				if try(c) {
+					hi = mid
 					best = c
 				} else {
-					break
+					lo = mid + 1
 				}
 			}
 		}
